@@ -1089,6 +1089,18 @@ impl Transaction {
                 if utxo_slip.amount != slip.amount {
                     return false;
                 }
+                // as for ordinary inputs : an output that has fallen out of the genesis window,
+                // or is handled by the very next block's rebroadcast pass, cannot be spent
+                if validate_against_utxo
+                    && utxo_slip.amount > 0
+                    && utxo_slip
+                        .block_id
+                        .saturating_add(blockchain.genesis_period)
+                        <= blockchain.get_latest_block_id()
+                {
+                    error!("ERROR 582042: staking transaction spends an input older than the genesis period");
+                    return false;
+                }
 
                 unique_keys.insert(slip.utxoset_key);
             }
